@@ -39,7 +39,7 @@ def Side.held (s : Side) : List Tun := s.tunnels ++ s.removed
 /-- unlockedInnerAddHostInfo: new primary, oldest retired beyond MaxHostInfosPerVpnIp -/
 def Side.install (s : Side) (t : Tun) : Side :=
   let l := t :: s.tunnels
-  if l.length > Nebula.Gen.nebula_MaxHostInfosPerVpnIp then
+  if l.length > Nebula.Gen.hsm_MaxHostInfosPerVpnIp then
     { s with tunnels := l.dropLast, removed := s.removed ++ (l.getLast?).toList }
   else { s with tunnels := l }
 
